@@ -44,6 +44,9 @@ func propC02(c *Ctx, r *Report) {
 	ruleTxConfinement(c, r, "C02-R3/tx-confinement")
 	// R10: atomicity against a kill rests on SQLite finding its rollback journal (or WAL) on disk at the next open
 	ruleDurableJournal(c, r, cat, "C02-R10/durable-journal")
+	ruleDBFilesUntouched(c, r, "C02-R10/db-files-untouched")
+	ruleErrPtrOverwrite(c, r, "C02-R8/error-not-overwritten", c.RSync)
+	ruleOneAttemptPerTx(c, r, "C02-R2/one-attempt-per-tx")
 
 	// R7: restart equivalence of the one piece of derived state block processing keeps in memory (shared with C09)
 	windowSize(c, r, "C02-R7/restart-window")
